@@ -26,7 +26,10 @@ class C40(core.Prop):
             "the odpor traces have pairwise different canonical forms; the set of canonical forms of the odpor traces equals the set of "
             "canonical forms of the traces explored without reduction (same number of classes, each class represented); and a third run "
             "with model-check/debug-optimality:1 does not die on 'Inserted a sequence that is equivalent'.  Runs that abort on the "
-            "recorded C38 defects (sdpor/odpor 'Actor -1 does not exist in state') are counted, not decided.  Non-trivial: >= 3 classes. "
+            "recorded C38 defects (sdpor/odpor 'Actor -1 does not exist in state') are counted, not decided.  Second mode ('sample', half of the "
+            "cases) for programs with 300..40000 paths, where an exhaustive run is too expensive: 30 generated random complete schedules stand for "
+            "the executions found without reduction; each must be equivalent to one odpor execution, and the odpor executions must be pairwise "
+            "inequivalent.  Non-trivial: >= 3 classes. "
             "Distinct = distinct canonical JSON.")
     assumptions = ["the reference semantics is only used to select programs (no deadlock, bounded number of paths)",
                    "two traces are equivalent iff they have the same canonical form; depends() is evaluated inside each trace on the "
@@ -37,19 +40,28 @@ class C40(core.Prop):
     def strategy(self, tier):
         big = tier == "thorough"
         self.limit = 1500 if big else 300
+        limit = self.limit
         contention = syncgen.programs(kinds=("mutex", "sem", "cond", "barrier", "mailbox"), max_actors=4 if big else 3, max_ops=8 if big else 6,
                                       mc=True, max_mutex=2, max_sem=1, max_cond=1, max_bar=1, profile="contention")
-        # most contention programs can deadlock (rejected: C40 is about complete executions); the others are deadlock-free by construction
+        # most contention programs can deadlock (outside the domain: C40 is about complete executions); the others are deadlock-free
+        # by construction
         safe = mcprog.deadlock_free_programs(max_actors=4 if big else 3, max_blocks=3)
-        limit = self.limit
+        large = mcprog.deadlock_free_programs(max_actors=4 if big else 3, max_blocks=4)
 
-        def in_domain(sc):        # construction rather than rejection: the search only sees programs of the domain
+        def paths(sc):
             try:
-                ex = refsem.explore(sc, "mc", max_states=60000)
+                ex = refsem.explore(sc, "mc", max_states=100000)
             except refsem.TooBig:
-                return False
-            return not ex.deadlocks and 2 <= ex.npaths <= limit and bool(ex.complete_outcomes())
-        return st.one_of(safe, safe, safe, safe, safe, contention).filter(in_domain).map(lambda sc: {"program": sc})
+                return None
+            if ex.deadlocks or not ex.complete_outcomes():
+                return None
+            return ex.npaths
+        # construction rather than rejection: the search only sees programs of the domain
+        exact = st.one_of(safe, safe, safe, safe, safe, contention).filter(lambda sc: (paths(sc) or 0) >= 2 and paths(sc) <= limit)
+        sampled = large.filter(lambda sc: limit < (paths(sc) or 0) <= 40000)
+        picks = st.lists(st.lists(st.integers(0, 5), min_size=70, max_size=70), min_size=30, max_size=30)
+        return st.one_of(exact.map(lambda sc: {"program": sc, "mode": "exact"}),
+                         st.tuples(sampled, picks).map(lambda t: {"program": t[0], "mode": "sample", "picks": t[1]}))
 
     def fixed_cases(self, tier):
         if os.environ.get("VF_NO_FIXED"):
@@ -64,13 +76,14 @@ class C40(core.Prop):
         except refsem.TooBig:
             oc.invalid = True
             return oc
-        if ex.deadlocks or ex.npaths > self.limit or not ex.complete_outcomes():
+        mode = case.get("mode", "exact")
+        if ex.deadlocks or (mode == "exact" and ex.npaths > self.limit) or not ex.complete_outcomes():
             oc.invalid = True
-            oc.labels.append("rejected-deadlock" if ex.deadlocks else "rejected-size")
             return oc
+        oc.labels.append("mode-" + mode)
         oc.evals = 0
         runs = {}
-        for red in ("none", "odpor"):
+        for red in (("none", "odpor") if mode == "exact" else ("odpor",)):
             r0, hang = peek.run_checker(sc, ["model-check/reduction:" + red] + mcrun.BASE_CFG, cpu=120, wall=1200, logs=["mc_dfs.thres:verbose"])
             oc.evals += 1
             if r0.wall_exceeded:
@@ -92,6 +105,26 @@ class C40(core.Prop):
                        % (red, len(traces), r.traces))
                 return oc
             runs[red] = traces
+        if mode == "sample":
+            # no exhaustive run: a sample of random complete schedules stands for "the executions found without reduction"; each
+            # of them must be equivalent to one odpor execution
+            ps = peek.run({"scenario": sc, "schedule": [], "branches": [[{"pick": k} for k in pl] for pl in case["picks"]], "dump": "none"},
+                          cpu=120, wall=1200)
+            oc.evals += 1
+            if ps.r.wall_exceeded:
+                raise core.Inconclusive()
+            if not ps.done or ps.of("branch_crash"):
+                oc.bad("driver-crash", "mc_peek did not finish: " + ps.crash_text())
+                return oc
+            sampled = []
+            for k in range(len(case["picks"])):
+                lines = ps.branches.get(k, [])
+                fin = next((l for l in lines if l.get("k") == "final"), None)
+                if fin is None or not any(l.get("k") == "stuck" for l in lines):
+                    oc.bad("driver-sample", "a sampled schedule did not run the program to its end (70 steps are not enough?)")
+                    return oc
+                sampled.append(tuple(fin["aid"]))
+            runs["none"] = sorted(set(sampled))
         oc.labels.append("none-traces<=10" if len(runs["none"]) <= 10 else "none-traces<=100" if len(runs["none"]) <= 100 else "none-traces>100")
         distinct = sorted(set(runs["none"]) | set(runs["odpor"]))
         p = peek.run({"scenario": sc, "schedule": [], "branches": [[[a, 0] for a in t] for t in distinct], "dump": "none"}, cpu=120, wall=1200)
@@ -126,9 +159,10 @@ class C40(core.Prop):
         missing = [c for c in cn if c not in co]
         extra = [c for c in co if c not in cn]
         if missing:
-            oc.bad("odpor-misses-class", "reduction none explored %d executions in %d classes, odpor %d executions in %d classes: no odpor execution is "
-                   "equivalent to %s" % (len(runs["none"]), len(cn), len(runs["odpor"]), len(co), fmt(cn[missing[0]][0])))
-        if extra:
+            oc.bad("odpor-misses-class", "%s %d executions in %d classes, odpor %d executions in %d classes: no odpor execution is "
+                   "equivalent to %s" % ("reduction none explored" if mode == "exact" else "random schedules gave", len(runs["none"]), len(cn),
+                                         len(runs["odpor"]), len(co), fmt(cn[missing[0]][0])))
+        if extra and mode == "exact":
             oc.bad("odpor-unknown-class", "odpor explored %s, which is equivalent to none of the %d executions explored without reduction"
                    % (fmt(co[extra[0]][0]), len(runs["none"])))
         # in-product oracle
@@ -142,8 +176,8 @@ class C40(core.Prop):
         elif hang or (r0.rc != 0 and "does not exist in state" not in r0.err):
             oc.bad("checker-failed:odpor-debug", "simgrid-mc reduction:odpor debug-optimality did not end normally (status %s, hang %s): %s"
                    % (r0.rc, hang, mcrun.McResult(sc, r0).tail()))
-        nclasses = len(cn)
-        oc.labels.append("classes=1" if nclasses == 1 else "classes=2" if nclasses == 2 else "classes<=10" if nclasses <= 10 else "classes>10")
+        nclasses = len(co)
+        oc.labels.append("classes=1" if nclasses == 1 else "classes=2" if nclasses == 2 else "classes<=10" if nclasses <= 10 else "classes<=50" if nclasses <= 50 else "classes>50")
         if len(runs["none"]) > len(cn):
             oc.labels.append("reduction-possible")
         oc.nontrivial = nclasses >= 3
